@@ -449,6 +449,9 @@ type vCase struct {
 	StartMs   int     `json:"start_ms"` // the connection arrives this long after the batch started
 	// the expiry sweeper removes the matched registration between the transport's lookup and the handler's MarkActive
 	SweepOnMatch bool `json:"sweep_on_match"`
+	// the connection opens with the byte-identical first flight of the first connection that used the same registration and
+	// client parameters in this world (captured there), instead of a freshly obfuscated one
+	ReplayExact bool `json:"replay_exact"`
 	// a legacy (client library v0) registration with this secret name is ingested right before the connection arrives
 	LegacyBefore string `json:"legacy_before"`
 	// histories of one phantom: the connection arrives after the named case has ended, and after these table operations
@@ -658,6 +661,33 @@ func (w *vWorld) clientTransport(cs *vCase) (interfaces.WrappingTransport, error
 	return tr, nil
 }
 
+// vTeeConn records what a client transport writes while it wraps the connection (its first flight)
+type vTeeConn struct {
+	net.Conn
+	buf  bytes.Buffer
+	done bool
+}
+
+func (t *vTeeConn) Write(p []byte) (int, error) {
+	if !t.done {
+		t.buf.Write(p)
+	}
+	return t.Conn.Write(p)
+}
+
+var vFlights sync.Map // world pointer + key -> []byte
+
+func (w *vWorld) capturedFlight(key string) []byte {
+	if v, ok := vFlights.Load(fmt.Sprintf("%p|%s", w, key)); ok {
+		return v.([]byte)
+	}
+	return nil
+}
+
+func (w *vWorld) captureFlight(key string, b []byte) {
+	vFlights.LoadOrStore(fmt.Sprintf("%p|%s", w, key), append([]byte(nil), b...))
+}
+
 // runCase executes one connection and returns its record
 func (w *vWorld) runCase(cs *vCase) map[string]any {
 	dst := w.phantoms[cs.Dst]
@@ -740,7 +770,19 @@ func (w *vWorld) runCase(cs *vCase) map[string]any {
 				wait = time.Duration(cs.ClientWaitMs) * time.Millisecond
 			}
 			_ = peer.SetDeadline(time.Now().Add(wait))
-			wc, err := tr.WrapConn(peer)
+			fkey := fmt.Sprintf("%s|%s|%d|%d", cs.Stream.From, cs.Stream.ClientT, cs.Stream.ClientPx, cs.Stream.Flush)
+			var wc net.Conn
+			if captured := w.capturedFlight(fkey); cs.ReplayExact && captured != nil {
+				_, err = peer.Write(captured)
+				wc = peer // min and prefix client connections are transparent behind their first flight
+			} else {
+				tee := &vTeeConn{Conn: peer}
+				wc, err = tr.WrapConn(tee)
+				if err == nil && cs.ReplayExact {
+					w.captureFlight(fkey, tee.buf.Bytes())
+				}
+				tee.done = true
+			}
 			d.mu.Lock()
 			flightLen = d.c2sWritten
 			d.mu.Unlock()
